@@ -379,6 +379,13 @@ def _p_cfg(ctx):
     return SubsetSelectionConfiguration(ncross=3, nparent=2, nmating=1, nprogeny=1, pgmat=ctx.pg, xconfig_decn=decn), _use_cfg
 
 
+@preg("xconfig.full")
+def _p_cfg_full(ctx):
+    # as many chosen parents as there are slots: one complete set per sampling
+    decn = numpy.arange(4)[::-1].copy()
+    return SubsetSelectionConfiguration(ncross=2, nparent=2, nmating=1, nprogeny=1, pgmat=ctx.pg, xconfig_decn=decn), _use_cfg
+
+
 @preg("xconfig.deepcopy")
 def _p_cfgd(ctx):
     o, use = _p_cfg(ctx)
@@ -408,7 +415,7 @@ def _p_prob_ga(ctx):
 
 # persistent objects whose documented state does not evolve with use (no progeny counters): these may also have been
 # used in the history that precedes the re-seeding
-PREUSE_OK = ("pt", "pt.deepcopy", "pt.copy", "xconfig", "hillclimber", "ga.real", "select.ebv", "problem.hc", "problem.ga")
+PREUSE_OK = ("pt", "pt.deepcopy", "pt.copy", "xconfig", "xconfig.full", "hillclimber", "ga.real", "select.ebv", "problem.hc", "problem.ga")
 
 
 @preg("select.ebv")
